@@ -1,5 +1,6 @@
 #!/usr/bin/env bash
-# tools/sensitivity.sh [--tests] [--tier quick|thorough] <patch.diff>...
+# tools/sensitivity.sh [--tests] [--rustc-tier] [--tier quick|thorough] <patch.diff>...
+# (by default only the simulated-host tier is run against the patched tree; --rustc-tier adds the end-to-end tier)
 #
 # For every patch: make a scratch worktree of /repo outside /repo and /verif, apply the
 # patch, run the C19 check against it (O2O_REPO=<scratch>), print one result line, and
@@ -8,10 +9,11 @@
 # Expected: every patch in mutants/ and seeded/*/patch.diff -> exit 1 (caught).
 set -u
 VERIF="$(cd "$(dirname "${BASH_SOURCE[0]}")/.." && pwd)"
-TESTS=0; TIER=quick; PATCHES=()
+TESTS=0; TIER=quick; RUSTC=--no-rustc-tier; PATCHES=()
 while [ $# -gt 0 ]; do
   case "$1" in
     --tests) TESTS=1; shift;;
+    --rustc-tier) RUSTC=; shift;;
     --tier) TIER="$2"; shift 2;;
     *) PATCHES+=("$1"); shift;;
   esac
@@ -34,7 +36,7 @@ for p in "${PATCHES[@]}"; do
       tests="SUITE-FAILS($(grep -oE '[0-9]+ failed' "$wt/.tests.log" | tail -1))"
     fi
   fi
-  out="$(O2O_REPO="$wt" "$VERIF/check" C19 --tier "$TIER" --evidence "$wt/.evidence.json" 2>&1)"; rc=$?
+  out="$(O2O_REPO="$wt" "$VERIF/check" C19 --tier "$TIER" --evidence "$wt/.evidence.json" $RUSTC 2>&1)"; rc=$?
   sig="$(printf '%s\n' "$out" | grep -m1 '^violation' | cut -c1-230)"
   nviol="$(printf '%s\n' "$out" | grep -c '^VIOLATION')"
   case $rc in
